@@ -239,6 +239,12 @@ def run_l1(ctx, rng, cov):
     if len(aborted) < 20:
         raise vlib.ToolError("generator C12_gen_nr produced %d behaviours with a not-retryable abort" % len(aborted))
     scns += aborted
+    # requests for a pagination link (DirectURL on the host that served the link) after a listing request
+    ln = ctx.tlc_scenarios("RegHttpGen", "C12_gen_link.cfg", workers=1, simulate="num=%d" % (600 if thorough else 80),
+                           depth=90, extra=["-seed", str(ctx.seed)], label="generator C12_gen_link.cfg", timeout=1500)
+    if len(ln["scenarios"]) < 20:
+        raise vlib.ToolError("generator C12_gen_link produced %d behaviours" % len(ln["scenarios"]))
+    scns += ln["scenarios"]
     for i, s in enumerate(scns):
         s["id"] = "tlc-%d" % i
     ntlc = len(scns)
@@ -499,6 +505,9 @@ def model_check(ctx, cov):
             ("RegHttpMC", "C12_mc_idle.cfg", "2 requests in sequence with idle gaps on 1 host: history of the earlier one", None),
             ("RegHttpMC", "C12_mc_idle_old.cfg", "switch StoreAnchor=FALSE, the seeded change C12-7 (expected: retry without "
              "back-off after an idle gap)", "Ok"),
+            ("RegHttpMC", "C12_mc_link.cfg", "listing + request for its pagination link (names the serving host, NoMirrors)", None),
+            ("RegHttpMC", "C12_mc_link_old.cfg", "switch LinkEntries=TRUE, as found before ac54726 (expected: the link is "
+             "re-sent to the same host without back-off, finding C12-5; explains seeded/fixrev-C12-5)", "Ok"),
             ("RegHttpMC", "C12_mc_nr.cfg", "one-shot bodies (not-retryable abort of next()), 2 requests, 2 slots: every "
              "exit returns its slot", None),
             ("RegHttpMC", "C12_mc_nr_old.cfg", "switch RelNR=FALSE, the seeded change C17-4 (expected: slot not returned)",
@@ -511,13 +520,27 @@ def model_check(ctx, cov):
                  ("RegHttpMC", "C12_mc_doc.cfg", "all priority assignments, documented order: (P) holds unwaived", None),
                  ("RegHttpMC", "C12_mc_nr_t.cfg", "one-shot bodies, R 2-3, 6 kinds", None),
                  ("RegHttpMC", "C12_mc_idle_t.cfg", "sequences with idle gaps, 2 hosts, 7 kinds", None),
+                 ("RegHttpMC", "C12_mc_link_t.cfg", "pagination links, 7 kinds, 3 faults", None),
                  ("RegHttpMC", "C12_live_t.cfg", "every call returns (liveness), R 1-2", None),
                  ("RegHttpMC", "C12_mc_t3.cfg", "3 hosts, R 1-3", None),
                  ("RegHttpMC", "C12_mc_t2ids.cfg", "2 overlapping requests", None)]
     states = trans = 0
     expected = {}
-    for mod, cfg, label, expect in runs:
-        r = ctx.tlc(mod, cfg, label=label, timeout=3000, allow_violation=expect is not None)
+    # the runs are independent: three lanes side by side (the expected counterexamples share one lane, so that
+    # the trace files TLC writes next to the spec never collide); each TLC gets a share of the cores
+    import concurrent.futures
+    import os
+    ctx._specdir()
+    lanes = [[r for r in runs if r[3] is not None], [], []]
+    for i, r in enumerate(sorted((r for r in runs if r[3] is None), key=lambda r: r[1])):
+        lanes[1 + i % 2].append(r)
+    w = max(2, (os.cpu_count() or 4) // 3)
+
+    def lane(rs):
+        return [(r, ctx.tlc(r[0], r[1], label=r[2], timeout=3000, allow_violation=r[3] is not None, workers=w)) for r in rs]
+    with concurrent.futures.ThreadPoolExecutor(max_workers=3) as ex:
+        done = [x for l in ex.map(lane, lanes) for x in l]
+    for (mod, cfg, label, expect), r in done:
         if expect is not None:
             if not r["violated"] or expect not in r["violated"]:
                 raise vlib.ToolError("%s/%s: the design spec no longer shows %s (got %s): (D) drifted from the code"
